@@ -10,11 +10,14 @@ from harness.programs import run_program
 PID = 'C17'
 LEVEL = 'fault_enumeration'
 RULE = ('A transport provider hands out successive SimNet transports, each attached to a fresh real server. Hypothesis '
-        'generates sequences of 1-4 connection endings drawn from {server EOF, transport error, keepalive timeout '
+        'generates sequences of 1-4 connection endings drawn from {server EOF, transport error (ECONNRESET, ETIMEDOUT, '
+        'EHOSTUNREACH), keepalive timeout '
         'through a server that went silent, explicit reconnect() while healthy}, with reconnect() called by the program, '
         'from on_close, or from on_keepalive_timeout, at generated moments relative to 0-4 pending interactions of all '
         'models, plus requests issued while the reconnect is in progress, a transport provider that takes 0-5 ticks and a '
-        'transport whose own connect() suspends for 1-3 ticks; after every reconnect two probes (a '
+        'transport whose own connect() suspends for 1-3 ticks, a client writer that stopped draining (pending requests still '
+        'queued when the connection ends), lease-honouring clients whose pending requests are waiting for a lease when the '
+        'connection ends (the next server grants a fresh lease); after every reconnect two probes (a '
         'request-response and a generator-backed stream) are issued. Oracle per reconnect: close() was called on the old '
         'transport; every request pending on the old connection ended with an error; the first frame on the new transport '
         'is a fresh SETUP (exactly one); the first request on it uses stream id 1; respond-flagged KEEPALIVEs appear on it '
@@ -31,22 +34,32 @@ def cases(draw):
     endings = []
     for i in range(n):
         if mode == 'on_close':
-            kind = draw(st.sampled_from(['eof', 'error']))
+            kind = draw(st.sampled_from(['eof', 'error', 'etimedout', 'ehostunreach']))
         elif mode == 'on_ka_timeout':
             kind = 'ka_timeout'
         else:
-            kind = draw(st.sampled_from(['eof', 'error', 'ka_timeout', 'explicit', 'explicit']))
+            kind = draw(st.sampled_from(['eof', 'error', 'etimedout', 'ehostunreach', 'ka_timeout', 'explicit', 'explicit']))
         pending = draw(st.lists(st.sampled_from(['rr', 'rr', 'st', 'ch', 'fnf']), max_size=4))
         endings.append({'kind': kind, 'pending': pending, 'ticks_before': draw(st.integers(0, 4)),
                         'during': draw(st.sampled_from([None, None, 'rr', 'rr2', 'rr3'])),
+                        # issued in the same turn as the reconnect request (before connect() runs) or one turn later
+                        'during_tick': draw(st.sampled_from([0, 0, 1])),
                         'provider_delay': draw(st.sampled_from([0, 0, 2, 5])),
                         # the next transport's own connect() (a handshake) takes a few loop iterations
                         'connect_suspend': draw(st.sampled_from([None, None, 1, 2, 3])),
+                        # the client's writer stops draining before the pending requests are issued: they are still in
+                        # the send queue when the connection ends
+                        'block_sender': draw(st.sampled_from([False, False, True])),
                         'ticks_after': draw(st.integers(1, 5))})
+    lease = draw(st.integers(0, 3)) == 0
+    if lease:
+        for e in endings:
+            # the current lease is used up before the pending requests are issued: they wait for a lease when the connection ends
+            e['starve'] = draw(st.booleans())
     P = draw(st.sampled_from([100, 250, 500]))
     L = draw(st.sampled_from([1000, 1500, 3000]))
     return {'mode': mode, 'endings': endings, 'P_ms': P, 'L_ms': L, 'msg': draw(st.booleans()),
-            'frag': draw(st.sampled_from([None, None, 64]))}
+            'frag': draw(st.sampled_from([None, None, 64])), 'lease': lease}
 
 
 def pending_spec(k):
@@ -76,6 +89,10 @@ def build(case):
         cfg['on_ka_timeout'] = 'reconnect'
     inter = []
     ops = [['tick', 3], ['settle']]
+    GRANT = ['lease', 100000, 100000000]
+    if case.get('lease'):
+        cfg['lease'] = {'queue': 0}
+        ops += [GRANT, ['settle']]
     plan = []  # per connection: dict(pending uids, probe uids)
     cur = {'pending': [], 'probes': [], 'during': []}
 
@@ -91,6 +108,10 @@ def build(case):
 
     add_probes()
     for e in case['endings']:
+        if case.get('lease') and e.get('starve'):
+            ops += [['lease', 0, 100000000], ['settle']]
+        if e.get('block_sender'):
+            ops.append(['block', 'c'])
         for k in e['pending']:
             inter.append(pending_spec(k))
             cur['pending'].append(len(inter) - 1)
@@ -98,7 +119,7 @@ def build(case):
         ops.append(['tick', e['ticks_before']])
         ops.append(['mark', 'ending'])
         kind = e['kind']
-        if kind in ('eof', 'error'):
+        if kind in ('eof', 'error', 'etimedout', 'ehostunreach'):
             ops.append(['cut', kind])
         elif kind == 'ka_timeout':
             ops.append(['blackhole', 's'])
@@ -109,12 +130,16 @@ def build(case):
             ops.append(['reconnect'])
         if e['during']:
             # requests issued while the reconnect is in progress (the provider may take a while to deliver a transport)
-            ops.append(['tick', 1])
+            if e.get('during_tick'):
+                ops.append(['tick', 1])
             for _ in range({'rr': 1, 'rr2': 2, 'rr3': 3}[e['during']]):
                 inter.append({'k': 'rr', 'side': 'c', 'req': [2, 2], 'resp': {'mode': 'now', 'p': [4, 4]}})
                 cur['during'].append(len(inter) - 1)
                 ops.append(['start'])
-        ops += [['tick', 6], ['settle'], ['mark', 'reconnected']]
+        ops += [['tick', 6], ['settle']]
+        if case.get('lease'):
+            ops += [GRANT, ['settle']]  # the new server grants a lease of its own
+        ops += [['mark', 'reconnected']]
         plan.append(cur)
         cur = {'pending': [], 'probes': [], 'during': []}
         add_probes()
